@@ -746,7 +746,7 @@ class Corr:
             for t in range(1, self.T - 1):
                 if ((self.content[t - 1] is None) or (self.content[t + 1] is None)) or (self.content[t + 1][0].value == 0):
                     newcontent.append(None)
-                elif self.content[t - 1][0].value / self.content[t + 1][0].value < 0:
+                elif self.content[t - 1][0].value / self.content[t + 1][0].value <= 0:
                     newcontent.append(None)
                 else:
                     newcontent.append(self.content[t - 1] / self.content[t + 1])
